@@ -162,17 +162,37 @@ pub fn profile_for(prop: &str) -> Profile {
             p.w.flush = 10;
             p.max_vols = 2;
         }
-        "small" => {
+        "small" | "crash09" => {
             p.name = "small";
             p.bias = Bias::Small;
             p.max_vols = 2;
-            p.min_len = 3;
-            p.max_len = 14;
+            p.min_len = 8;
+            p.max_len = 30;
             p.w.checkpoint = 0;
             p.w.stale = 1;
             p.w.has_open = 0;
             p.w.label = 0;
+            p.w.query = 0;
+            p.w.find = 1;
+            p.w.iterate = 1;
+            p.w.read = 3;
+            p.w.seek = 6;
+            p.w.open_file = 30;
+            p.w.write = 30;
+            p.w.delete = 12;
+            p.w.mkdir = 10;
+            p.w.close_file = 12;
+            p.w.flush = 8;
             p.reent_pct = 0;
+            p.invalid_pct = 1;
+            if prop == "crash09" {
+                // flush early and often, then keep working next to the flushed files
+                p.w.flush = 16;
+                p.w.close_file = 16;
+                p.w.delete = 14;
+                p.min_len = 12;
+                p.max_len = 40;
+            }
         }
         _ => {}
     }
